@@ -198,6 +198,7 @@ def check(chk):
                     tagf = cand
                     chk.analysed(tagf)
     _memo_rule(chk, repo, tagf)
+    _payload_marker(chk, repo)
     ecfg = tagf.cfg()
 
     # what each kind of value looks like on the line: decided on the string shapes when every path can be evaluated; the clauses bound to the
@@ -510,6 +511,33 @@ def check(chk):
     chk.ob("OWN-17", "each command is sent as exactly one line", ok, snd.where(), construct=snd.ident, text="one line per command")
 
 
+def _payload_marker(chk, repo):
+    """FRAME-1 (marker): the payload announcement is the *parameter* `bytes`: the marker the readers look for starts with the pair separator
+    `&` and ends with `=` (b'&bytes='), so a parameter whose name merely ends in "bytes" (total_bytes=24) or a value containing "bytes=" is
+    not taken for it; the line is cut at the same marker it was recognised by."""
+    mod = repo.mod(BS)
+    consts = [x for x in mod.tree.body if isinstance(x, ast.Assign) and src(x.targets[0]) == "BYTE_MARKER" and isinstance(x.value, ast.Constant)]
+    chk.expect(len(consts) == 1, "C19: BYTE_MARKER constant not found")
+    if consts:
+        v = consts[0].value.value
+        ok = isinstance(v, bytes) and v.startswith(b"&") and v.endswith(b"=") and v[1:-1] == b"bytes"
+        chk.ob("FRAME-1", "the byte marker is the whole parameter `bytes` with its separators (b'&bytes=')", ok, "%s:%d" % (BS, consts[0].lineno), detail=repr(v),
+               construct=BS + "::BYTE_MARKER", text="byte marker %r" % (v,))
+    n = 0
+    for c in mod.classes.values():
+        f = c.methods.get("read_message")
+        if f is None:
+            continue
+        for x in f.calls():
+            if call_attr(x) == "split" and src(x.func.value) == "message" and x.args:
+                a = x.args[0]
+                n += 1
+                same = src(a) == "BYTE_MARKER" or (consts and isinstance(a, ast.Constant) and a.value == consts[0].value.value)
+                chk.ob("FRAME-1", "%s.read_message cuts the line at the marker it tested for" % c.name, bool(same), f.where(x), detail=src(a), construct=f.ident,
+                       text="marker split in " + c.name)
+    chk.ob("FRAME-1", "marker splits examined (%d)" % n, n >= 2, BS + ":1", nontrivial=False)
+
+
 def _memo_rule(chk, repo, tagf):
     """CACHE-1: nothing on the encoding path is memoised by argument value.  A cache keyed by `==` cannot tell True from 1
     from 1.0 (nor 0.0 from -0.0): whichever is encoded first decides the wire form -- and the decoded type -- of the others."""
@@ -595,6 +623,7 @@ def _frame_rules(chk, cn, f, cfg):
 def battery():
     from sa.battery import M
     return [
+        M("byte marker without its separator", BS, "BYTE_MARKER = b'&bytes='", "BYTE_MARKER = b'bytes='", "FRAME-1"),
         M("tag as prefix, None gets a body too", BS, "        value = quote(str(v), '')\n\n        if isinstance(v, bool):  # bool isinstance of int, so this goes first\n            value = 'bool:{}'.format(value)\n        elif isinstance(v, int):\n            value = 'int:{}'.format(value)\n        elif isinstance(v, float):\n            value = 'float:{}'.format(value)\n        elif v is None:\n            value = 'NoneType:'\n        else:  # cast anything else as a string\n            value = str(value)\n\n        kwarg_string += '{}={}&'.format(quote(k, ''),\n                                        value)", "        if isinstance(v, bool):\n            prefix = 'bool:'\n        elif isinstance(v, int):\n            prefix = 'int:'\n        elif isinstance(v, float):\n            prefix = 'float:'\n        elif v is None:\n            prefix = 'NoneType:'\n        else:\n            prefix = ''\n\n        kwarg_string += '{}={}{}&'.format(quote(k, ''), prefix, quote(str(v), ''))", ("LAYER-1", "TABLE-9")),
         M("twin: tag as prefix, None without a body", BS, "        value = quote(str(v), '')\n\n        if isinstance(v, bool):  # bool isinstance of int, so this goes first\n            value = 'bool:{}'.format(value)\n        elif isinstance(v, int):\n            value = 'int:{}'.format(value)\n        elif isinstance(v, float):\n            value = 'float:{}'.format(value)\n        elif v is None:\n            value = 'NoneType:'\n        else:  # cast anything else as a string\n            value = str(value)\n\n        kwarg_string += '{}={}&'.format(quote(k, ''),\n                                        value)", "        if isinstance(v, bool):\n            prefix = 'bool:'\n        elif isinstance(v, int):\n            prefix = 'int:'\n        elif isinstance(v, float):\n            prefix = 'float:'\n        elif v is None:\n            prefix = 'NoneType:'\n        else:\n            prefix = ''\n\n        kwarg_string += '{}={}{}&'.format(quote(k, ''), prefix, '' if v is None else quote(str(v), ''))", None),
         M("decoded commands memoised by line", BS, "def decode_command_string(bcp_string) -> Tuple[str, dict]:", "import functools\n\n\n@functools.lru_cache(maxsize=1024)\ndef decode_command_string(bcp_string) -> Tuple[str, dict]:", "MEMO-0"),
